@@ -632,6 +632,39 @@ def subclass_job(fam):
                         break
     finally:
         F.reset_sizes(fam)
+    if fam == 'fs':
+        # the C fsBucket's own compact serialisation: toBytes() / fromBytes() (and the deprecated aliases)
+        cls = F.cls('fs', 'Bucket', 'c')
+        keys9, _g = F.universe('fs', 9, 'centred')
+        v0, v1 = F.values('fs')
+        for nk in range(0, 10):
+            for live in (0, 3, 9):
+                src = cls()
+                for i, k in enumerate(keys9[:nk]):
+                    src[k] = (v0, v1)[i % 2]
+                evaluations += 1
+                guards['fs_bytes_roundtrips'] += 1
+                sig = dict(sub=True, fam=fam, kind='Bucket', impl='c', site='toBytes')
+                case = dict(sub=True, fam=fam, kind='Bucket', keyform='toBytes', valform='%d/%d' % (nk, live), entry='c')
+                try:
+                    data = src.toBytes()
+                    want = b''.join(keys9[:nk]) + b''.join((v0, v1)[i % 2] for i in range(nk))
+                    dst = cls()
+                    nxt = cls()
+                    for i, k in enumerate(reversed(keys9[:live])):
+                        dst[k] = v1
+                    if live:
+                        dst.__setstate__((dst.__getstate__()[0], nxt))
+                    r = dst.fromBytes(data) if nk % 2 else dst.fromString(data)
+                    got = (data, list(dst.items()), r is dst, dst.__getstate__()[1:] in ((), (None,)), src.toString())
+                    exp = (want, list(src.items()), True, True, want)
+                    if got != exp:
+                        rep.add(dict(sig, cls='bytes-roundtrip'), case,
+                                'toBytes/fromBytes of %d items onto a bucket of %d: %r, expected %r' % (nk, live, got, exp))
+                    dst[keys9[0]] = v0          # usable afterwards
+                    dst._p_changed
+                except Exception as e:      # noqa
+                    rep.add(dict(sig, cls='exc-' + type(e).__name__), case, '%d/%d: %r' % (nk, live, e))
     return dict(states=evaluations, transitions=evaluations, compared=evaluations,
                 evaluations=evaluations, distinct=evaluations, exhaustive=not rep.full,
                 guards=dict(guards), outcomes={}, violations=rep.all(), sample=sample)
